@@ -66,6 +66,17 @@ CLAIMED = {
             'removed indexes) on an API-built database; .dbml and .sql of the edited database and of its elements must equal those of a '
             'database freshly rebuilt from the final plain content by an independent rebuild oracle.',
             'DESIGN.md 6/C10', ''),
+    'C12': ('All eight documented entry points (constructor with str / Path / text file, PyDBML.parse, PyDBML().parse, parse_file with '
+            'path string / Path / text file) on a text whose first character is symbolic over the BMP (BOM or not) plus a note hole: same '
+            'accept / reject decision, same error class, same content, BOM ignored on every route, file routes open with encoding utf8; '
+            'fourteen non-str/Path/file source kinds (falsy ones included) raise TypeError and the empty string is an empty document; '
+            'allow_properties and renderer classes take effect on every route that accepts them.',
+            'DESIGN.md 6/C12', 'open() and file objects are stubs (stated in assumptions): real files and decoding are outside the claim.'),
+    'C15': ('Documents with 0-2 properties in a table body and / or a column settings list, mixed with ordinary settings, notes and an index '
+            'block at symbolic positions, one-line and multi-line, keys from an enumerated set, values symbolic: stored exactly and in '
+            'order with the option on, database flag set, round trip through .dbml, flag flips switch rendering, syntax error with the option '
+            'off, and identical parse and renderings under both option values for documents without properties.',
+            'DESIGN.md 6/C15', 'Two open findings (key with a keyword prefix; property after a newline in a settings list).'),
 }
 _PENDING = 'check under construction in this session (harness not yet committed); not claimed until it runs clean on the unchanged tree'
 NOT_APPLICABLE = {f'C{i:02d}': _PENDING for i in range(1, 19) if f'C{i:02d}' not in CLAIMED}
